@@ -3,12 +3,15 @@ module github.com/jdillenkofer/pithos/verif/mc
 go 1.27.0
 
 require (
+	github.com/aws/aws-sdk-go-v2 v1.43.5
+	github.com/aws/smithy-go v1.27.7
 	github.com/jdillenkofer/pithos v0.0.0
 	github.com/oklog/ulid/v2 v2.1.2
 	github.com/prometheus/client_golang v1.24.1
 )
 
 require (
+	github.com/Shopify/go-lua v0.0.0-20250718183320-1e37f32ad7d0 // indirect
 	github.com/XSAM/otelsql v0.43.0 // indirect
 	github.com/aws/aws-sdk-go v1.55.8 // indirect
 	github.com/beorn7/perks v1.0.1 // indirect
